@@ -70,14 +70,21 @@ def build(hk, style, fk, indent, leading, sep, trailing, variant="full"):
     return text
 
 
-def space():
-    for variant, hk, style, fk, indent, leading, sep, trailing in itertools.product(SECTION_VARIANTS, [h[0] for h in HEADERS], STYLES, [f[0] for f in FOOTERS], INDENTS, LEADING, SEPARATORS, TRAILING):
+def space(indents=INDENTS, separators=SEPARATORS):
+    for variant, hk, style, fk, indent, leading, sep, trailing in itertools.product(SECTION_VARIANTS, [h[0] for h in HEADERS], STYLES, [f[0] for f in FOOTERS], indents, leading_values(), separators, TRAILING):
         yield dict(hk=hk, style=style, fk=fk, indent=indent, leading=leading, sep=sep, trailing=trailing, variant=variant)
 
 
+def leading_values():
+    return LEADING
+
+
 def cases(tier, seed):
-    for key in space():
-        yield key
+    if tier == "quick":
+        yield from space()
+    else:
+        # also indentation that is not a multiple of four, a deeper level, and three blank lines between header and section
+        yield from space(indents=[0, 2, 4, 8, 12], separators=[1, 2, 3])
 
 
 def classify_split(doc, h, a, f, indent):
